@@ -35,11 +35,12 @@ d = open(D).read()
 b, e = '<!-- seed-matrix:begin -->', '<!-- seed-matrix:end -->'
 if b in d and e in d:
     missed = [s for s in rows if s.get('missed_by')]
-    t = [b, '', f'{len(rows)} confirmed changes; {len(rows) - len(missed)} were reported by the check of their own property as it stood when the change arrived, {len(missed)} were missed at first and are reported after the strengthening described below (none is missed now).', '',
+    still = [s for s in rows if s.get('still_missed')]
+    t = [b, '', f'{len(rows)} confirmed changes; {len(rows) - len(missed)} were reported by the check of their own property as it stood when the change arrived, {len(missed) - len(still)} were missed at first and are reported after the strengthening described below, {len(still)} ({", ".join(x["id"] for x in still)}) are still missed - they arrived at the very end and are recorded as open gaps with what closing them takes.', '',
          '| change | breaks (needs) | reported by | first clause |', '|---|---|---|---|']
     for s in rows:
-        star = ' **(after strengthening)**' if s.get('missed_by') else ''
-        t.append(f"| {s['id']} | {s['change']} *(needs: {s['needs']})* | {', '.join(s['caught_by'])}{star} | {s.get('clauses','')} |")
+        star = ' **(after strengthening)**' if s.get('missed_by') and not s.get('still_missed') else ''
+        t.append(f"| {s['id']} | {s['change']} *(needs: {s['needs']})* | {', '.join(s['caught_by']) or '**not reported (open gap)**'}{star} | {s.get('clauses','')} |")
     t += ['', '**Misses and what they changed in the machinery**', '']
     for s in missed:
         t.append(f"* **{s['id']}** - {s['strengthened']}")
